@@ -67,6 +67,10 @@ class _ParseSpec(Spec):
             for name, n, split in (("emphasis", 7, 2), ("links", 6, 2), ("containers", 6, 2), ("leaf", 5, 1)):
                 for s in docs.sigma_shards(name, n, split):
                     out.append(self.job(s, budget=900.0))
+        if self.prop == "C04":
+            # crossing emphasis spans: an opened span followed by four free cells over the emphasis alphabet
+            for prefix in (("*a ", "_a ", "**a") if tier == "quick" else ("*a ", "_a ", "**a", "*a_", "a *", "__a")):
+                out.append(self.job({"skeleton": prefix + "????", "holes": [3, 4, 5, 6], "alphabet": "emphasis"}, budget=400.0 if tier == "quick" else 900.0))
         for extra in self.extra_docs(tier):
             out.append(self.job({"skeleton": extra, "holes": []}))
         return out
